@@ -10,7 +10,7 @@ THEOREMS = ["TLVerif.Props.C19." + t for t in [
     "lexer_recombines", "lexer_no_panic", "lexer_terminates", "token_pos_in_range", "eof_token_last",
     "lex_error_pos_in_text",
     "parse_no_panic", "parse_terminates", "error_pos_in_text", "console_print_no_panic",
-    "parse_total", "error_context_not_corrupted"]]
+    "parse_total", "error_context_not_corrupted", "console_print_renders_error"]]
 
 POS = re.compile(r"b=(\d+)\.(\d+)\.(\d+)\.(\d+) e=(\d+)\.(\d+)\.(\d+)\.(\d+) o=(\d+)\.(\d+)\.(\d+)\.(\d+)")
 
